@@ -1,71 +1,162 @@
-"""C12: finalize / clean / save on every (tree, link placement) of the OdmlLinksGen model."""
+"""C12 (and the 'unresolvable link or include' part of C06): finalize / clean / save on every
+(tree, link placement) of the OdmlLinksGen model, once with links (paths in the same document)
+and once with includes (URL#path of a file holding the same tree), followed by refused
+assignments of references that cannot be resolved."""
+import os, tempfile, shutil
 from . import common as C
 from . import world as W
 from . import clone as CL
 from .paths import tok_path
 odml = W.odml
+from odml import terminology
 from odml.tools.odmlparser import ODMLWriter
 from odml.tools.xmlparser import XMLReader
 
+# in the include variant one name carries a '#' (the separator of URL and path)
+INC_NAMES = {"a": "a", "b": "b#2", "c": "c"}
 
-def render(p):
-    s = "/".join(p["steps"])
+
+def render(p, names=None):
+    steps = [names.get(x, x) for x in p["steps"]] if names else p["steps"]
+    s = "/".join(steps)
     return "/" + s if p["abs"] else s
 
 
 def snap(objs, idtok):
-    return W.project_full(objs, idtok)
+    # uncertainty is compared as text: the XML reader hands numbers back as text, which is judged
+    # by C01 (known finding there), not here
+    from .docs import unc_text
+    st, objs2 = W.project_full(objs, idtok)
+    st = unc_text(st)
+    st.pop("unctype", None)
+    return st, objs2
+
+
+def merged_of(objs):
+    return sorted(h for h, o in objs.items() if o is not None and W.kind_of(o) == "sec" and o.is_merged)
+
+
+def settle_loaders():
+    for t in list(terminology.terminologies.loading.values()):
+        try:
+            t.join()
+        except RuntimeError:
+            pass
 
 
 def replay(t):
+    for r in run_case(t, False):
+        yield r
+    if all(e["form"] == "abs" for e in t["links"]):
+        for r in run_case(t, True):
+            yield r
+
+
+def run_case(t, inc):
     st, links = t["st"], t["links"]
-    linkof = {e["L"]: render(e["path"]) for e in links}
+    salt = CL.salt_of(st)
+    names = INC_NAMES if inc else None
+    if inc:
+        st = dict(st, name={h: INC_NAMES.get(n, n) for h, n in st["name"].items()})
+    d = tempfile.mkdtemp(prefix="links", dir=os.environ.get("TMPDIR"))
+    old_tmp = tempfile.tempdir
+    tempfile.tempdir = d              # the library's download cache (tempdir/odml.cache) stays inside d
+    try:
+        url = None
+        if inc:
+            target = W.build(st, mk=lambda h, k, s: CL.mk(h, k, s, salt))["d1"]
+            path = os.path.join(d, "target.xml")
+            ODMLWriter("XML").write_file(target, path)
+            url = "file://" + path
+        ref_of = {e["L"]: (url + "#" + render(e["path"], names) if inc else render(e["path"])) for e in links}
 
-    def mk(h, k, s):
-        if k == "sec" and h in linkof:
-            n = int(h[1:])
-            return odml.Section(name=s["name"][h], type=s["type"][h], definition="def-" + h,
-                                reference="ref-" + h if n % 2 else None, link=linkof[h])
-        return CL.mk(h, k, s)
+        def mk(h, k, s):
+            if k == "sec" and h in ref_of:
+                n = int(h[1:]) + salt
+                kw = {"include": ref_of[h]} if inc else {"link": ref_of[h]}
+                return odml.Section(name=s["name"][h], type=s["type"][h], definition="def-" + h,
+                                    reference="ref-" + h if n % 2 else None, **kw)
+            return CL.mk(h, k, s, salt)
 
-    objs = W.build(st, mk=mk)
-    idtok = W.IdTok()
-    doc = objs["d1"]
-    cur, objs = snap(objs, idtok)
-    ref = cur
-    for cycle in (1, 2):
-        pre = cur
-        out, exc = "ok", "none"
-        try:
-            doc.finalize()
-        except Exception as e:
-            out, exc = "raised", type(e).__name__
-        mid, objs = snap(objs, idtok)
-        yield {"fam": "links", "src": "model", "t": "finalize", "cycle": cycle, "links": links, "out": out, "exc": exc,
-               "pre": pre, "post": mid, "ref": pre, "postlinks": {}, "x": "d1", "y": "d1"}
-        out, exc = "ok", "none"
-        try:
-            doc.clean()
-        except Exception as e:
-            out, exc = "raised", type(e).__name__
-        post, objs = snap(objs, idtok)
-        pl = {}
-        for e in links:
-            lk = objs[e["L"]].link
-            pl[e["L"]] = tok_path(lk) if isinstance(lk, str) else {"abs": False, "steps": ["?none"], "prop": "none", "raw": repr(lk)}
-        yield {"fam": "links", "src": "model", "t": "clean", "cycle": cycle, "links": links, "out": out, "exc": exc,
-               "pre": mid, "post": post, "ref": pre, "postlinks": pl, "x": "d1", "y": "d1"}
-        cur = post
-        if cycle == 1:
-            # a file saved after clean: the reference, none of the referenced content
-            out, exc = "ok", "none"
-            o2 = dict(objs)
+        objs = W.build(st, mk=mk)
+        settle_loaders()
+        idtok = W.IdTok()
+        doc = objs["d1"]
+        cur, objs = snap(objs, idtok)
+        base = {"fam": "links", "src": "model", "links": links, "inc": inc, "x": "d1", "y": "d1"}
+
+        def postlinks():
+            pl = {}
+            for e in links:
+                if inc:
+                    # an include is never rewritten: the same text designates the same target
+                    same = objs[e["L"]].include == ref_of[e["L"]]
+                    pl[e["L"]] = dict(e["path"], steps=[INC_NAMES.get(x, x) for x in e["path"]["steps"]]) if same else {"abs": False, "steps": ["?changed"], "prop": "none", "raw": repr(objs[e["L"]].include)}
+                else:
+                    lk = objs[e["L"]].link
+                    pl[e["L"]] = tok_path(lk) if isinstance(lk, str) else {"abs": False, "steps": ["?none"], "prop": "none", "raw": repr(lk)}
+            return pl
+
+        def call(fn):
             try:
-                text = ODMLWriter("XML").to_string(doc)
-                o2["r1"] = XMLReader(ignore_errors=False, show_warnings=False).from_string(text)
+                fn()
+                return "ok", "none"
             except Exception as e:
-                out, exc = "raised", type(e).__name__
-                o2["r1"] = odml.Document()
-            both, _ = snap(o2, idtok)
-            yield {"fam": "links", "src": "model", "t": "save", "cycle": cycle, "links": links, "out": out, "exc": exc,
-                   "pre": post, "post": both, "ref": post, "postlinks": pl, "x": "d1", "y": "r1"}
+                return "raised", type(e).__name__
+
+        for cycle in (1, 2):
+            pre = cur
+            out, exc = call(doc.finalize)
+            settle_loaders()
+            mid, objs = snap(objs, idtok)
+            yield dict(base, t="finalize", cycle=cycle, out=out, exc=exc, pre=pre, post=mid, ref=pre, postlinks={})
+            out, exc = call(doc.clean)
+            post, objs = snap(objs, idtok)
+            pl = postlinks()
+            yield dict(base, t="clean", cycle=cycle, out=out, exc=exc, pre=mid, post=post, ref=pre, postlinks=pl)
+            cur = post
+            if cycle == 1:
+                # a file saved after clean: the reference, none of the referenced content
+                out, exc = "ok", "none"
+                o2 = dict(objs)
+                try:
+                    text = ODMLWriter("XML").to_string(doc)
+                    o2["r1"] = XMLReader(ignore_errors=False, show_warnings=False).from_string(text)
+                    settle_loaders()
+                except Exception as e:
+                    out, exc = "raised", type(e).__name__
+                    o2["r1"] = odml.Document()
+                both, _ = snap(o2, idtok)
+                yield dict(base, t="save", cycle=cycle, out=out, exc=exc, pre=post, post=both, ref=post, postlinks=pl, y="r1")
+
+        # ---- C06: a reference that cannot be resolved is refused and changes nothing ----
+        def bad(what):
+            return (url + "#/no/such/section") if what == "include" else "/no/such/section"
+
+        def refuse(h, what, state):
+            pre, _ = snap(objs, idtok)
+            mpre = merged_of(objs)
+            out, exc = call(lambda: setattr(objs[h], what, bad(what)))
+            settle_loaders()
+            post, _ = snap(objs, idtok)
+            return dict(base, t="refused_ref", cycle=3, what=what, state=state, out=out, exc=exc, pre=pre, post=post, ref=pre,
+                        postlinks={}, x=h, merged_pre=mpre, merged_post=merged_of(objs))
+
+        linkers = [e["L"] for e in links]
+        plain = [h for h, k in st["kind"].items() if k == "sec" and h not in linkers and st["par"][h] != "none"]
+        what = "include" if inc else "link"
+        for h in plain[:2]:
+            yield refuse(h, what, "plain")
+        for h in linkers[:1]:
+            yield refuse(h, what, "unresolved")
+        call(doc.finalize)
+        settle_loaders()
+        for h in linkers:
+            yield refuse(h, what, "resolved")
+        call(doc.clean)
+    finally:
+        settle_loaders()
+        terminology.terminologies.clear()
+        terminology.terminologies.loading.clear()
+        tempfile.tempdir = old_tmp
+        shutil.rmtree(d, ignore_errors=True)
